@@ -158,7 +158,7 @@ const (
 // credentials, TLS certificate, client type, tunnel certificate file).
 type CfgShape struct {
 	Gen        string `json:"gen,omitempty"`
-	Port       int32  `json:"port,omitempty"` // the Agent observation listens on port 0 whenever this is positive
+	Port       int32  `json:"port,omitempty"`  // the Agent observation listens on port 0 whenever this is positive
 	Creds      string `json:"creds,omitempty"` // "" unset | "empty" = credentials {} | "set"
 	Cert       string `json:"cert,omitempty"`  // "" unset | "empty" = zero-length bytes | "set"
 	ClientType int32  `json:"client_type,omitempty"`
